@@ -432,11 +432,31 @@ GenuineIsSane == phase = "term" => SaneOK(x, TRUE)
 ------------------------------------------------------------------------------
 (* case export *)
 PairSeq(S) == SetToSortSeq(S, LAMBDA p, q : p[1] < q[1])
+(* A grid calculation: two solutes varied over two levels each (EqSystem.solve(init, varied = {...})).   *)
+(* The mapping lists the substances in an order of the caller's choice - here NOT the order of the   *)
+(* system; the axes of the result follow the order of the system's substances.  Entry <<a, b>> of    *)
+(* the result therefore belongs to the initial state with level a of the solute that comes first in  *)
+(* the system and level b of the one that comes later: the grid is rebuilt here, never read back.    *)
+Solutes == {j \in 1..NS : sys.ss[j] # 1 /\ j \notin sys.solid}
+Levels(j) == IF init[j][1] > 0 THEN << <<2 * init[j][1], init[j][2]>>, <<5 * init[j][1], init[j][2]>> >>
+             ELSE << <<1, -3>>, <<3, -3>> >>
+VariedGrid ==
+    IF Cardinality(Solutes) < 2 THEN [keys |-> <<>>, levels |-> <<>>, grid |-> <<>>]
+    ELSE LET jA == CHOOSE j \in Solutes : \A k \in Solutes : j <= k
+             jB == CHOOSE j \in Solutes : \A k \in Solutes : j >= k
+             cell(a, b) == [idx |-> <<a, b>>,
+                            init |-> [j \in 1..NS |-> IF j = jA THEN Levels(jA)[a]
+                                                      ELSE IF j = jB THEN Levels(jB)[b] ELSE init[j]]]
+         IN  [keys |-> <<jB, jA>>,                       \* listed later-first
+              levels |-> <<Levels(jB), Levels(jA)>>,
+              grid |-> <<cell(1, 1), cell(1, 2), cell(2, 1), cell(2, 2)>>]
+
 PoolCase ==
     [in  |-> [rids |-> sys.rs, sidx |-> sys.ss,
               species |-> [j \in 1..NS |-> [name |-> SpName[sys.ss[j]], comp |-> PairSeq(SpComp[sys.ss[j]]),
                                             solid |-> j \in sys.solid]],
-              nu |-> sys.nu, K |-> ProblemK, c0 |-> init, guess |-> guess, kshift |-> kshift],
+              nu |-> sys.nu, K |-> ProblemK, c0 |-> init, guess |-> guess, kshift |-> kshift,
+              varied |-> VariedGrid],
      exp |-> [wellcond |-> WellConditioned, homog |-> Homogeneous, determined |-> Determined, single |-> (NR = 1 /\ Homogeneous /\ \A j \in 1..NS : init[j][1] > 0),
               rate |-> <<RateNum, RateDen>>, saturation |-> Saturation],
      cls |-> IF ~Homogeneous THEN (IF sys.nu[PT[1]][SolidPos(PT[1])] < 0 THEN "salt-reac" ELSE "salt-prod")
